@@ -18,7 +18,7 @@ const paginationPkg = "mod/internal/pagination"
 
 // C16: pagination links are real, same-site, fetchable URLs.
 func C16(p *core.Program, r *core.Report) {
-	r.Explanation = "Q5: stringutil.UnescapedString, which renders the allowed prefix scheme://host/ and every compared URL, writes the scheme, host, path and query of its argument as they are (the trailing slash of the prefix is what excludes look-alike hosts). Sink sanitisation. Q1 (PrevNext): the only append to the candidate list is unreachable once the `ParseRequestURI(href) succeeded` edge or the `href has the scheme://host/ prefix of the page` edge is removed (guard-cut); the stored link is the normalised absolute href of an anchor of the document; the function returns \"\" or the linkHref of a candidate. Q2 (PageNumber sources): every PageInfo.URL in the module is \"\", a copy of another PageInfo.URL, the current document's own URL (two reviewed sites in the detector), or - in getPageInfoAndText, by decision-path enumeration - the normalised href of an anchor that parsed, has the page's host and an http/https scheme; NextPagingURL fields only ever receive such URLs. Q3 (PageNumber sinks): PrevPage is stored only from a PageInfo.URL that is not the current page (normalised comparison) and NextPage only from NextPagingURL."
+	r.Explanation = "Q5: stringutil.UnescapedString, which renders the allowed prefix scheme://host/ and every compared URL, writes the scheme, host, path and query of its argument as they are (the trailing slash of the prefix is what excludes look-alike hosts). Sink sanitisation. Q1 (PrevNext): the only append to the candidate list is unreachable once the `ParseRequestURI(href) succeeded` edge or the `href has the scheme://host/ prefix of the page` edge is removed (guard-cut); the stored link is the normalised absolute href of an anchor of the document; the function returns \"\" or the linkHref of a candidate. Q2 (PageNumber sources): every PageInfo.URL in the module is \"\", a copy of another PageInfo.URL, the current document's own URL (two reviewed sites in the detector), or - in getPageInfoAndText, by decision-path enumeration - the normalised href of an anchor that parsed, has the page's host and an http/https scheme; NextPagingURL fields only ever receive such URLs. Q3 (PageNumber sinks): PrevPage is stored only from a PageInfo.URL that is not the current page (normalised comparison) and NextPage only from NextPagingURL. Q6: every base handed to stringutil.CreateAbsoluteURL below package pagination is, through the chain of module callers, the very pageURL parameter of a FindPagination method - never a trimmed copy, a re-parsed or a loaded value."
 	r.NotCovered = "that the link is the right one (C17), host equality subtleties (ports, case) and what counts as the same site beyond scheme and host, the regular expressions scoring the links."
 
 	c := core.NewCanon(p)
